@@ -32,7 +32,8 @@ var (
 	kKA  = []byte{0x10, 0x11}
 	kKAB = []byte{0x10, 0x11, 0x12}
 	kM   = []byte{0x20}
-	keys = [][]byte{kK, kKA, kKAB, kM}
+	kNil = []byte{} // the zero-length key: sorts before everything, and is what the key p becomes below Subset(p)
+	keys = [][]byte{kNil, kK, kKA, kKAB, kM}
 	vX   = []byte{1}
 	vY   = []byte{2}
 	vE   = []byte{}
@@ -45,12 +46,15 @@ type write struct {
 
 var writeSets = [][]write{
 	{{kK, vX}},
-	{{kKA, vY}, {kM, vX}},
-	{{kK, nil}},
-	{{kK, vE}, {kM, nil}},
+	{{kKA, vY}, {kM, vX}, {kNil, vX}},
+	{{kK, nil}, {kNil, nil}},
+	{{kK, vE}, {kM, nil}, {kNil, vY}},
 	{{kKAB, vX}, {kK, vY}},
 	{{kKA, nil}, {kM, vY}},
 }
+
+// prefixes under which every view is also read through Subset(p), and over which Subset(p).Snapshot() views are opened
+var subPrefixes = [][]byte{{0x10}, {0x10, 0x11}}
 
 // view writes (through an open view)
 var viewWrites = []write{{kK, vY}, {kKA, nil}, {kKAB, vE}}
@@ -153,16 +157,38 @@ func (c content) digest() string {
 type refView struct {
 	root   content  // for views opened from the manager
 	parent *refView // for snapshots
+	sub    []byte   // non-nil: the view is parent.Subset(sub).Snapshot(): it sees the parent's keys below sub, with sub stripped
 	own    []write  // writes made through this view itself
 	desc   string
 	handle db.DB
 }
 
+// restrict returns the part of c below prefix p, with p stripped from the keys.
+func restrict(c content, p []byte) content {
+	o := content{}
+	for k, v := range c {
+		if bytes.HasPrefix([]byte(k), p) {
+			o[k[len(p):]] = v
+		}
+	}
+	return o
+}
+
 func (v *refView) base() content {
 	if v.parent != nil {
+		if v.sub != nil {
+			return restrict(v.parent.cur(), v.sub)
+		}
 		return v.parent.cur()
 	}
 	return v.root.clone()
+}
+// prefix is what has been stripped from the keys this view sees (concatenated over nested subsets).
+func (v *refView) prefix() []byte {
+	if v.parent == nil {
+		return nil
+	}
+	return append(append([]byte{}, v.parent.prefix()...), v.sub...)
 }
 func (v *refView) cur() content {
 	c := v.base()
@@ -308,9 +334,17 @@ func (x *run) apply(o Op) {
 		v := r.views[o.A]
 		h := v.handle.Snapshot()
 		r.views = append(r.views, &refView{parent: v, desc: "snapshot of " + v.desc, handle: h})
+	case "U":
+		v := r.views[o.A]
+		p := subPrefixes[o.B]
+		h := v.handle.Subset(p).Snapshot()
+		r.views = append(r.views, &refView{parent: v, sub: p, desc: fmt.Sprintf("snapshot of subset %x of %s", p, v.desc), handle: h})
 	case "W":
 		v := r.views[o.A]
 		w := viewWrites[o.B]
+		if p := v.prefix(); len(p) > 0 { // same logical key, addressed relative to the subset
+			w = write{Key: w.Key[len(p):], Val: w.Val}
+		}
 		var err error
 		if w.Val == nil {
 			err = v.handle.Delete(w.Key)
@@ -348,6 +382,17 @@ func (x *run) checkViews(after Op) (reads int) {
 				universe[k] = true
 			}
 		}
+		full := universe
+		if p := v.prefix(); len(p) > 0 {
+			universe = map[string]bool{}
+			for k := range restrictKeys(full, p) {
+				universe[k] = true
+			}
+			for k := range cur {
+				universe[k] = true
+			}
+		}
+		reads += x.checkSubsets(after, v, cur, universe)
 		for k := range universe {
 			reads++
 			want, present := cur[k]
@@ -432,6 +477,139 @@ func (x *run) checkViews(after Op) (reads int) {
 	return
 }
 
+func restrictKeys(u map[string]bool, p []byte) map[string]bool {
+	o := map[string]bool{}
+	for k := range u {
+		if bytes.HasPrefix([]byte(k), p) {
+			o[k[len(p):]] = true
+		}
+	}
+	return o
+}
+
+// checkSubsets reads the view through Subset(p) for every subset prefix: point lookups and existence tests of every key of
+// the universe below p (addressed relative to p, so the key p itself becomes the zero-length key), ordered scans with the
+// remaining prefixes, and the change set restricted to p.
+func (x *run) checkSubsets(after Op, v *refView, cur content, universe map[string]bool) (reads int) {
+	for _, p := range subPrefixes {
+		sub := v.handle.Subset(p)
+		want := restrict(cur, p)
+		for k := range restrictKeys(universe, p) {
+			reads++
+			w, present := want[k]
+			got, err := sub.Get([]byte(k))
+			has, herr := sub.Has([]byte(k))
+			if herr != nil || has != present {
+				x.fail("subset-has-wrong", "after %v: %s Subset(%x).Has(%x) = %v,%v want %v", after, v.desc, p, k, has, herr, present)
+			}
+			if present && (err != nil || !bytes.Equal(got, w)) {
+				x.fail("subset-get-wrong", "after %v: %s Subset(%x).Get(%x) = %x,%v want %x", after, v.desc, p, k, got, err, w)
+			}
+			if !present && err != leveldb.ErrNotFound {
+				x.fail("subset-get-wrong", "after %v: %s Subset(%x).Get(%x) = %x,%v want not-found", after, v.desc, p, k, got, err)
+			}
+		}
+		for _, sp := range [][]byte{nil, {0x11}, {0x12}} {
+			reads++
+			var wk []string
+			for k := range want {
+				if bytes.HasPrefix([]byte(k), sp) {
+					wk = append(wk, k)
+				}
+			}
+			sort.Strings(wk)
+			var ws, gs []string
+			for _, k := range wk {
+				ws = append(ws, fmt.Sprintf("%x=%x", k, want[k]))
+			}
+			it := sub.NewIterator(sp)
+			for it.Next() {
+				if it.Value() == nil {
+					continue
+				}
+				gs = append(gs, fmt.Sprintf("%x=%x", it.Key(), it.Value()))
+			}
+			it.Release()
+			if strings.Join(gs, ",") != strings.Join(ws, ",") {
+				x.fail("subset-scan-wrong", "after %v: %s Subset(%x).scan(%x) = %v want %v", after, v.desc, p, sp, gs, ws)
+			}
+		}
+		// the change set of the subset: the view's own writes below p, keys relative to p
+		ch, err := sub.Changes()
+		if err != nil {
+			x.fail("subset-changes-error", "after %v: %s Subset(%x).Changes() error %v", after, v.desc, p, err)
+			continue
+		}
+		replayed := restrict(v.base(), p)
+		if err := ch.Replay(&replayer{c: replayed}); err != nil {
+			x.fail("subset-changes-error", "replay error %v", err)
+		}
+		if replayed.digest() != want.digest() {
+			x.fail("subset-changes-wrong", "after %v: %s Subset(%x).Changes() replays to %v, want %v", after, v.desc, p, replayed, want)
+		}
+		reads++
+		// a transient Subset(p).Snapshot() (the composition the node uses for account and contract stores): writes made
+		// through it stay in its own overlay, so it can be written, read back completely and dropped without changing
+		// the state under exploration
+		for _, tw := range [][]write{{{kNil, vY}}, {{[]byte{0x11}, nil}, {kNil, vE}}} {
+			snap := sub.Snapshot()
+			exp := want.clone()
+			for _, w := range tw {
+				var err error
+				if w.Val == nil {
+					err = snap.Delete(w.Key)
+				} else {
+					err = snap.Put(w.Key, w.Val)
+				}
+				if err != nil {
+					x.fail("subset-snapshot-write-fails", "after %v: %s Subset(%x).Snapshot() write %x failed: %v", after, v.desc, p, w.Key, err)
+				}
+				exp.apply(w)
+			}
+			for k := range restrictKeys(universe, p) {
+				reads++
+				w, present := exp[k]
+				got, err := snap.Get([]byte(k))
+				has, _ := snap.Has([]byte(k))
+				if has != present || (present && (err != nil || !bytes.Equal(got, w))) || (!present && err != leveldb.ErrNotFound) {
+					x.fail("subset-snapshot-get-wrong", "after %v: %s Subset(%x).Snapshot() after writes %v: Get(%x) = %x,%v Has = %v, want present=%v %x", after, v.desc, p, tw, k, got, err, has, present, w)
+				}
+			}
+			var wk, ws, gs []string
+			for k := range exp {
+				wk = append(wk, k)
+			}
+			sort.Strings(wk)
+			for _, k := range wk {
+				ws = append(ws, fmt.Sprintf("%x=%x", k, exp[k]))
+			}
+			it := snap.NewIterator(nil)
+			for it.Next() {
+				if it.Value() == nil {
+					continue
+				}
+				gs = append(gs, fmt.Sprintf("%x=%x", it.Key(), it.Value()))
+			}
+			it.Release()
+			reads++
+			if strings.Join(gs, ",") != strings.Join(ws, ",") {
+				x.fail("subset-snapshot-scan-wrong", "after %v: %s Subset(%x).Snapshot() after writes %v: scan = %v want %v", after, v.desc, p, tw, gs, ws)
+			}
+			ch, err := snap.Changes()
+			if err == nil {
+				replayed := want.clone()
+				ch.Replay(&replayer{c: replayed})
+				if replayed.digest() != exp.digest() {
+					x.fail("subset-snapshot-changes-wrong", "after %v: %s Subset(%x).Snapshot() Changes() replays to %v, want %v", after, v.desc, p, replayed, exp)
+				}
+			} else {
+				x.fail("subset-snapshot-changes-error", "after %v: %v", after, err)
+			}
+		}
+	}
+	return
+}
+
 func onlyEmptyValuesMissing(got, want []string) bool {
 	g := map[string]bool{}
 	for _, s := range got {
@@ -492,6 +670,7 @@ func (x *run) stateKey() string {
 }
 
 type bounds struct {
+	nsub     int // number of subset prefixes over which Subset(p).Snapshot() views are opened
 	nws      int // number of commit write sets used
 	depth    int
 	maxStack int
@@ -529,14 +708,22 @@ func enabled(r *ref, b bounds) []Op {
 		for i := range r.views {
 			out = append(out, Op{K: "N", A: i})
 		}
+		for i := range r.views {
+			for sp := 0; sp < b.nsub; sp++ {
+				out = append(out, Op{K: "U", A: i, B: sp})
+			}
+		}
 	}
 	nw := 0
 	for _, v := range r.views {
 		nw += len(v.own)
 	}
 	if nw < b.maxViewW {
-		for i := range r.views {
+		for i, v := range r.views {
 			for w := range viewWrites {
+				if v.sub != nil && !bytes.HasPrefix(viewWrites[w].Key, v.prefix()) {
+					continue // that key does not exist below the subset
+				}
 				out = append(out, Op{K: "W", A: i, B: w})
 			}
 		}
@@ -607,10 +794,10 @@ func init() {
 			if tier == "thorough" {
 				return 20 * time.Minute
 			}
-			return 150 * time.Second
+			return 240 * time.Second
 		},
 		Assumptions: []string{
-			"keys {k, ka, kab, m} with shared prefixes, values {x, y, empty}, deletions and re-creations; 6 commit write sets, 3 view writes",
+			"keys {zero-length, k, ka, kab, m} with shared prefixes, values {x, y, empty}, deletions and re-creations; 6 commit write sets, 3 view writes; every view is also read through Subset(p) and through a written Subset(p).Snapshot() for p in {k, ka}",
 			"scans are normalised by dropping entries whose iterator value is nil (the repository's tombstone convention)",
 			"concurrency part: scheduling points at every mutex acquisition of common/db and before every leveldb write of Add/Pop; weak-memory effects are out of scope",
 		},
@@ -645,9 +832,9 @@ func runC07(c *xs.Ctx, r *xs.Result) {
 		r.Count("transitions", int64(len(rep.Ops)))
 		return
 	}
-	b := bounds{nws: 3, depth: 6, maxStack: 3, maxViews: 2, maxViewW: 1}
+	b := bounds{nsub: 0, nws: 3, depth: 6, maxStack: 3, maxViews: 2, maxViewW: 1}
 	if c.Thorough() {
-		b = bounds{nws: 6, depth: 7, maxStack: 3, maxViews: 2, maxViewW: 2}
+		b = bounds{nsub: 2, nws: 6, depth: 7, maxStack: 3, maxViews: 2, maxViewW: 2}
 	}
 	// the schedule exploration is cheap and goes first; the sequential search takes the rest of the budget
 	runSched(c, r)
